@@ -889,6 +889,9 @@ def rule_r8(prog, res) -> None:
         raise AnalysisError(f"C17.R8: only {n} constructions of the method's own class found, minimum 15")
 
 
+R9_SCOPE = ("yaw.utils.abc", "yaw.binning", "yaw.correlation", "yaw.redshifts", "yaw.catalog.readers", "yaw.randoms")
+
+
 def rule_r9(prog, res) -> None:
     """iterators restart on iter(): a class that implements the iterator protocol on itself (`__iter__` returns self)
     resets in `__iter__`, on every path, each counter that `__next__` advances — an iterator that only rewinds when it
@@ -902,6 +905,11 @@ def rule_r9(prog, res) -> None:
         nxt = ci.methods.get("__next__") or (prog.find_method(ci, "__next__") if ci.methods.get("__iter__") else None)
         it = prog.find_method(ci, "__iter__")
         if nxt is None or it is None or nxt.is_abstract or not ci.module.name.startswith("yaw."):
+            continue
+        # the property speaks of selecting bins / patches (and chunks of a reader) by iteration: the indexers of the
+        # container modules and the readers. A single-use iterator elsewhere (e.g. one that drains a message queue) is
+        # consumed once by construction and owes no restart.
+        if not any(ci.module.name == m_ or ci.module.name.startswith(m_ + ".") for m_ in R9_SCOPE):
             continue
         # counters: attributes of self that __next__ both reads and advances
         adv = set()
